@@ -94,7 +94,19 @@ def top(parent, leaf, x):
     return [PARENTS[parent](leaf, x)]
 
 
+@task(version="1")
+def via_subrun(leaf, x, new_execution):
+    """the failing call runs in a sub-scheduler (extending this execution, or in an execution of its own)"""
+    from redun.scheduler import subrun
+    CALLS.append("via_subrun")
+    return subrun(LEAVES[leaf](x), executor="default", new_execution=new_execution)
+
+
 def program(shape, parent, leaf, x):
+    if shape == "subrun_ext":
+        return via_subrun(leaf, x, False)
+    if shape == "subrun_new":
+        return via_subrun(leaf, x, True)
     if shape == "leaf":
         return LEAVES[leaf](x)
     if shape == "parent":
